@@ -90,7 +90,7 @@ def check_whitespace_normalised(ctx: Ctx) -> None:
             ctx.ob("R-LAYOUT-Y2", f"{f.qual} :: {norm(r.ast)[:60]}", ok,
                    "text returned by a base wrapper must have had its whitespace runs collapsed (re.sub(r'\\s+', ' ') or split/join): "
                    "otherwise runs of spaces in the source survive on this path and the output depends on the input's layout", where(f, r))
-        ctx.require("R-LAYOUT-Y2", f"returns of {f.name}", n, 2)
+        ctx.require("R-LAYOUT-Y2", f"returns of {f.name}", n, 1)
     # wrap_paragraph_lines' normalisation is on by default and not switched off on the Markdown chains
     d = next((dflt for a, dflt in zip(reversed(wl.node.args.args), reversed(wl.node.args.defaults)) if a.arg == "replace_whitespace"), None)
     ctx.ob("R-LAYOUT-Y2", f"{wl.qual} :: replace_whitespace defaults to True", isinstance(d, ast.Constant) and d.value is True,
@@ -213,7 +213,7 @@ def check_hard_break_decorator(ctx: Ctx) -> None:
     w = next(f for f in fac.local_defs.values() if isinstance(f, FuncInfo))
     flow = prog.flow(w)
     appends = [(n, c) for n, c in flow.all_calls() if isinstance(c.func, ast.Attribute) and c.func.attr == "append" and c.args]
-    ctx.require("R-HARDBREAK", "segment appends in the hard-break decorator", len(appends), 2)
+    ctx.require("R-HARDBREAK", "segment appends in the hard-break decorator", len(appends), 1)
     for n, c in appends:
         guards = direct_guards(prog, w, n)
         last = [g for g in guards if "is_last" in norm(g[0].ast)]
